@@ -35,6 +35,8 @@ func solverArgv(kind string, timeoutMs int) []string {
 	switch kind {
 	case "z3a2":
 		return []string{"z3-new", "-in", fmt.Sprintf("-t:%d", timeoutMs), "smt.arith.solver=2"}
+	case "z3s":
+		return []string{"z3-new", "-in", fmt.Sprintf("-t:%d", timeoutMs), "smt.random_seed=11", "smt.arith.random_initial_value=true"}
 	case "z3old":
 		return []string{"/usr/bin/z3", "-in", fmt.Sprintf("-t:%d", timeoutMs)}
 	case "cvc5":
